@@ -505,7 +505,7 @@ func (g *FullGen) Select(depth int) *Stmt {
 			seen := map[string]bool{}
 			for i := 0; i < n; i++ {
 				nm := g.pick(names)
-				if seen[nm] {
+				if seen[nm] && !r.Chance(1, 3) { // now and then the same column twice
 					continue
 				}
 				seen[nm] = true
